@@ -272,14 +272,20 @@ class Recorder:
         ex = [t[2] for t in r.tag("summary") if len(t) > 2 and t[1] == "exit"]
         return ex[-1] if ex else ("ok" if r.rc == 0 else "none")
 
-    def check(self, *flags, rules=None):
+    def check(self, *flags, rules=None, filt=None):
         present = self.present_levels()
+        frec = None
+        if filt:
+            fargv, frec, pex = self.filter_args(filt)
+            flags = tuple(flags) + tuple(fargv)
         r = self.a.run("check", *flags, rules=rules)
         self.last_result = r
         de, pe = self._derr(r)
         out = {"exit": self._exit(r), "rc": r.rc, "derr": [list(x) for x in de], "perr": [list(x) for x in pe]}
-        self.lines.append({"e": "Check", "args": {"audit": "-a" in flags, "present": present, "flags": list(flags), "range": _range(flags)},
-                           "state": self.state(), "out": out})
+        args = {"audit": "-a" in flags, "present": present, "flags": list(flags), "range": _range(flags)}
+        if frec:
+            args["flt"] = frec
+        self.lines.append({"e": "Check", "args": args, "state": self.state(), "out": out})
         return r, out
 
     def project_import(self, imp_stamp=None, imp_content=None):
